@@ -512,7 +512,7 @@ class Context(object):
         current_frame = self._stack[0]
         if layer_name:
             current_frame = self._select_stack_frame_by_layer(layer_name)
-        if cleanup_func not in current_frame["@cleanups"]:
+        if internal_cleanup_func not in current_frame["@cleanups"]:
             # -- AVOID DUPLICATES:
             current_frame["@cleanups"].append(internal_cleanup_func)
 
